@@ -298,14 +298,14 @@ class Flow:
         l = loc_text(self.resolver.resolve(t)) if not isinstance(t, ast.Name) else t.id
         return [l] if l else []
 
-    def _guard_fact(self, key: str, pol: bool, atom_ast: ast.AST) -> tuple:
+    def _guard_fact(self, key: str, pol: bool, atom_ast: ast.AST, origin: str = "b") -> tuple:
         mentions = set()
         for n in ast.walk(atom_ast):
             if isinstance(n, (ast.Name, ast.Attribute, ast.Subscript)):
                 lt = loc_text(n)
                 if lt:
                     mentions.add(lt)
-        return ("g", key, pol, frozenset(mentions))
+        return ("g", key, pol, frozenset(mentions), origin)
 
     def transfer_simple(self, stmt: ast.stmt, st: State) -> State:
         st = self._apply_events(stmt, st)
@@ -347,7 +347,7 @@ class Flow:
                     if isinstance(t, (ast.Name, ast.Attribute)):
                         ra = self.resolver.resolve(t) if not isinstance(t, ast.Name) else t
                         key = ast.unparse(ra)
-                        st = st | {self._guard_fact(key, learned, ra)}
+                        st = st | {self._guard_fact(key, learned, ra, "a")}
         return st
 
     def refine(self, test: ast.AST, pol: bool, st: State) -> Optional[State]:
@@ -597,11 +597,13 @@ class Flow:
                 pass
         return st
 
-    def guards_at(self, node: ast.AST) -> Optional[Set[Tuple[str, bool]]]:
+    def guards_at(self, node: ast.AST, learned: bool = False) -> Optional[Set[Tuple[str, bool]]]:
+        """Branch-derived guard facts at node; learned=True also includes flags learned from assignments
+        (x = True / x = not y)."""
         st = self.state_at(node)
         if st is None:
             return None
-        return {(f[1], f[2]) for f in st if f[0] == "g"}
+        return {(f[1], f[2]) for f in st if f[0] == "g" and (learned or f[4] == "b")}
 
     def events_at(self, node: ast.AST) -> Optional[Set[str]]:
         st = self.state_at(node)
